@@ -163,6 +163,53 @@ def random_spectrum(rng, nk, nth, style):
     return e
 
 
+def forwarding(ctx, pmod):
+    import xarray as xr
+    from wavespectra.core.utils import smooth_spec
+    rng = np.random.RandomState(ctx.seed + 3)
+    nk, nth = 9, 12
+    freq, dirs = 0.05 + 0.025 * np.arange(nk), np.arange(nth) * 30.0
+    ii, jj = np.meshgrid(np.arange(nk), np.arange(nth), indexing="ij")
+
+    def spec():
+        a = np.zeros((nk, nth))
+        for amp in (90, 60, 35, 20):
+            ci, cj = rng.randint(1, nk - 1), rng.randint(0, nth)
+            dj = np.minimum((jj - cj) % nth, (cj - jj) % nth)
+            a += np.maximum(0, amp - 0.3 * amp * (np.abs(ii - ci) + dj) ** 2)
+        return a + rng.randint(0, 3, size=a.shape)
+    for rep in range(2 if ctx.quick else 12):
+        arr = np.stack([spec() for _ in range(2)])
+        da = xr.DataArray(arr, coords={"time": [0, 1], "freq": freq, "dir": dirs}, dims=("time", "freq", "dir"), name="efth")
+        mk = lambda v: xr.DataArray(np.asarray(v, float), coords={"time": [0, 1]}, dims=("time",))  # noqa
+        wspd, wdir, dpt = [9.0, 14.0], [40.0, 200.0], [25.0, 400.0]
+        settings = [dict(), dict(agefac=1.2), dict(wscut=0.7), dict(wscut=0.0), dict(swells=1), dict(swells=5), dict(ihmax=4), dict(ihmax=1),
+                    dict(smooth=True), dict(smooth=True, freq_window=1, dir_window=5), dict(smooth=True, freq_window=5, dir_window=3)]
+        for kw in settings:
+            fw, dw = kw.get("freq_window", 3), kw.get("dir_window", 3)
+            sm = smooth_spec(da, fw, dw).transpose("time", "freq", "dir").values if kw.get("smooth") else arr
+            agefac, wscut, swells, ihmax = kw.get("agefac", 1.7), kw.get("wscut", 0.3333), kw.get("swells", 3), kw.get("ihmax", 100)
+            for name in ("ptm1", "ptm2", "ptm3"):
+                ctx.case(("forward", rep, name, json.dumps(kw, sort_keys=True)), True)
+                try:
+                    if name == "ptm3":
+                        kw3 = {k: v for k, v in kw.items() if k in ("ihmax", "smooth", "freq_window", "dir_window")}
+                        got = da.spec.partition.ptm3(parts=swells, **kw3).transpose("time", "part", "freq", "dir").values
+                        ref = [np.asarray(pmod.np_ptm3(arr[t], sm[t], freq, dirs, swells, ihmax)) for t in range(2)]
+                    else:
+                        got = getattr(da.spec.partition, name)(mk(wspd), mk(wdir), mk(dpt), **kw).transpose("time", "part", "freq", "dir").values
+                        ref = [np.asarray(getattr(pmod, "np_" + name)(arr[t], sm[t], freq, dirs, wspd[t], wdir[t], dpt[t], agefac, wscut, swells, ihmax)) for t in range(2)]
+                    ok = all(got[t].shape == ref[t].shape and np.allclose(got[t], ref[t], rtol=1e-6, atol=1e-9) for t in range(2))
+                    what = "differs from np_%s called with the same values" % name
+                except Exception as ex:  # noqa
+                    ok, what = False, "raised %s: %s" % (type(ex).__name__, str(ex)[:120])
+                if ok:
+                    ctx.replayed()
+                else:
+                    ctx.violation({"where": "accessor", "fn": name, "clause": "keyword-forwarded", "keywords": sorted(kw)},
+                                  "accessor %s(%s) %s" % (name, kw, what), {"keywords": kw})
+
+
 def run(ctx):
     setup_repo_imports()
     import xarray as xr
@@ -295,6 +342,9 @@ def run(ctx):
     if index:
         k = sorted(index)[0]
         ctx.sample({"kind": "real-watershed run validated by PartitionTrace", "fn": index[k][0], "E": index[k][1], "shape": index[k][2]})
+    # ---- every keyword of the accessor methods reaches the routine: for non-default agefac / wscut / swells / ihmax / smoothing
+    # windows the accessor result equals the numpy-level function called with the same values on each spectrum
+    forwarding(ctx, pmod)
     # ---- extension beyond the listed property: the Hanson & Phillips merging (hp01) as a state machine, model-checked and
     # trace-validated; reported in the evidence notes only
     try:
